@@ -97,3 +97,9 @@ VARIANTS += [
          [(RG14b, "            if alias_index >= from_size or alias_index < 0:", "            if alias_index > from_size or alias_index < 0:")],
          ("C14.1", "NamedQubit.__init__:bound-strictness"), ("C14",)),
 ]
+VARIANTS += [
+    # reverting fix f4b5414
+    fire("c14-unused-macro-argument-unchecked",
+         [(EM14, "        for arg in gate.parameters.values():\n            check_argument(arg)\n", "")],
+         ("C14.4", "replace_gate:macro-arguments-checked"), ("C14",)),
+]
